@@ -4,6 +4,7 @@ import (
 	"encoding/json"
 	"fmt"
 	"math/big"
+	"os"
 	"time"
 
 	sdkmath "cosmossdk.io/math"
@@ -21,6 +22,7 @@ import (
 
 	e "haqqsim/engine"
 
+	"github.com/haqq-network/haqq/contracts"
 	coinomicstypes "github.com/haqq-network/haqq/x/coinomics/types"
 	erc20types "github.com/haqq-network/haqq/x/erc20/types"
 	evmtypes "github.com/haqq-network/haqq/x/evm/types"
@@ -179,11 +181,90 @@ func delegationOf(w *e.World, del sdk.AccAddress, val sdk.ValAddress) *big.Int {
 	return v.TokensFromShares(d.Shares).TruncateInt().BigInt()
 }
 
+// ---- state-aware pickers (generation only)
+
+func allIdx(w *e.World) []int {
+	out := make([]int, 0, nAcc(w)+e.NExtra)
+	for i := 0; i < nAcc(w)+e.NExtra; i++ {
+		out = append(out, i)
+	}
+	return out
+}
+
+func idxOf(w *e.World, addr string) int {
+	for _, i := range allIdx(w) {
+		if w.Acct(i).Acc.String() == addr {
+			return i
+		}
+	}
+	return -1
+}
+
+// vestingAccts returns the indices of accounts that currently are clawback vesting accounts.
+func vestingAccts(w *e.World) []int {
+	ctx := w.Ctx()
+	var out []int
+	for _, i := range allIdx(w) {
+		if _, ok := w.App().AccountKeeper.GetAccount(ctx, w.Acct(i).Acc).(*vestingtypes.ClawbackVestingAccount); ok {
+			out = append(out, i)
+		}
+	}
+	return out
+}
+
+func vestingAcct(w *e.World, i int) *vestingtypes.ClawbackVestingAccount {
+	va, _ := w.App().AccountKeeper.GetAccount(w.Ctx(), w.Acct(i).Acc).(*vestingtypes.ClawbackVestingAccount)
+	return va
+}
+
+type delegRec struct {
+	a   int
+	val int64
+	amt *big.Int
+}
+
+func delegations(w *e.World) []delegRec {
+	var out []delegRec
+	for _, i := range allIdx(w) {
+		for v := range w.Vals {
+			if d := delegationOf(w, w.Acct(i).Acc, w.Vals[v].ValAddr); d.Sign() > 0 {
+				out = append(out, delegRec{i, int64(v), d})
+			}
+		}
+	}
+	return out
+}
+
+// liquidHolding returns bank + ERC20 balance of a liquid denom for account i.
+func liquidHolding(w *e.World, i int, denom string) *big.Int {
+	ctx := w.Ctx()
+	b := w.App().BankKeeper.GetBalance(ctx, w.Acct(i).Acc, denom).Amount.BigInt()
+	id := w.App().Erc20Keeper.GetTokenPairID(ctx, denom)
+	if pair, ok := w.App().Erc20Keeper.GetTokenPair(ctx, id); ok {
+		if x := w.App().Erc20Keeper.BalanceOf(ctx, contracts.ERC20MinterBurnerDecimalsContract.ABI, pair.GetERC20Contract(), w.Acct(i).Eth); x != nil {
+			b = new(big.Int).Add(b, x)
+		}
+	}
+	return b
+}
+
+func liquidDenoms(w *e.World) []string {
+	var out []string
+	for _, d := range w.App().LiquidVestingKeeper.GetAllDenoms(w.Ctx()) {
+		out = append(out, d.BaseDenom)
+	}
+	return out
+}
+
 func init() {
 	defOp(&OpDef{Name: "send",
 		Gen: func(w *e.World, r *e.RNG) e.Step {
 			a := r.Intn(nAcc(w))
-			return e.Step{K: "tx", Op: "send", A: a, B: w.AnyAcct(r), S: []string{r.Amount(w.Balance(w.Acct(a).Acc)).String()}}
+			b := w.AnyAcct(r)
+			if va := vestingAccts(w); len(va) > 0 && r.Chance(0.35) {
+				b = va[r.Intn(len(va))] // vesting accounts need free coins to pay fees
+			}
+			return e.Step{K: "tx", Op: "send", A: a, B: b, S: []string{r.Amount(w.Balance(w.Acct(a).Acc)).String()}}
 		},
 		Msgs: func(w *e.World, st *e.Step) (*e.Account, []sdk.Msg, bool) {
 			a, b := w.Acct(st.A), w.Acct(st.B)
@@ -202,6 +283,10 @@ func init() {
 		Gen: func(w *e.World, r *e.RNG) e.Step {
 			a := r.Intn(nAcc(w))
 			v := int64(r.Intn(len(w.Vals)))
+			if ds := delegations(w); len(ds) > 0 && r.Chance(0.8) {
+				d := ds[r.Intn(len(ds))]
+				a, v = d.a, d.val
+			}
 			return e.Step{K: "tx", Op: "undelegate", A: a, N: []int64{v}, S: []string{r.Amount(delegationOf(w, w.Acct(a).Acc, valAddr(w, v))).String()}}
 		},
 		Msgs: func(w *e.World, st *e.Step) (*e.Account, []sdk.Msg, bool) {
@@ -213,6 +298,13 @@ func init() {
 			a := r.Intn(nAcc(w))
 			v := int64(r.Intn(len(w.Vals)))
 			v2 := int64(r.Intn(len(w.Vals)))
+			if ds := delegations(w); len(ds) > 0 && r.Chance(0.8) {
+				d := ds[r.Intn(len(ds))]
+				a, v = d.a, d.val
+				if len(w.Vals) > 1 {
+					v2 = (v + 1 + int64(r.Intn(len(w.Vals)-1))) % int64(len(w.Vals))
+				}
+			}
 			return e.Step{K: "tx", Op: "redelegate", A: a, N: []int64{v, v2}, S: []string{r.Amount(delegationOf(w, w.Acct(a).Acc, valAddr(w, v))).String()}}
 		},
 		Msgs: func(w *e.World, st *e.Step) (*e.Account, []sdk.Msg, bool) {
@@ -221,7 +313,12 @@ func init() {
 		}})
 	defOp(&OpDef{Name: "withdraw",
 		Gen: func(w *e.World, r *e.RNG) e.Step {
-			return e.Step{K: "tx", Op: "withdraw", A: r.Intn(nAcc(w)), N: []int64{int64(r.Intn(len(w.Vals)))}}
+			a, v := r.Intn(nAcc(w)), int64(r.Intn(len(w.Vals)))
+			if ds := delegations(w); len(ds) > 0 && r.Chance(0.8) {
+				d := ds[r.Intn(len(ds))]
+				a, v = d.a, d.val
+			}
+			return e.Step{K: "tx", Op: "withdraw", A: a, N: []int64{v}}
 		},
 		Msgs: func(w *e.World, st *e.Step) (*e.Account, []sdk.Msg, bool) {
 			a := w.Acct(st.A)
@@ -347,7 +444,7 @@ func init() {
 				}
 				msgs = []sdk.Msg{m}
 			}
-			m, err := govv1.NewMsgSubmitProposal(msgs, e.Native(e.BigS(st.SArg(0))), a.Acc.String(), "", "t", "s")
+			m, err := govv1.NewMsgSubmitProposal(msgs, e.Native(e.BigS(st.SArg(0))), a.Acc.String(), "ipfs://meta", "t", "s")
 			if err != nil {
 				return nil, nil, false
 			}
@@ -384,8 +481,16 @@ func init() {
 			if r.Chance(0.15) {
 				b = r.Intn(nAcc(w))
 			}
-			s := GenSched(r, w.Now.Unix(), r.Amount(e.BigS("50000000000000000000000")), false)
+			s := GenSched(r, w.Now.Unix(), r.Amount(e.BigS("50000000000000000000000")), r.Chance(0.4))
 			s.Merge = r.Chance(0.4)
+			if va := vestingAccts(w); len(va) > 0 && r.Chance(0.3) {
+				// merge a further grant into an existing vesting account, as its funder
+				b = va[r.Intn(len(va))]
+				if f := idxOf(w, vestingAcct(w, b).FunderAddress); f >= 0 && f < nAcc(w) {
+					a = f
+				}
+				s.Merge = true
+			}
 			p, _ := json.Marshal(s)
 			return e.Step{K: "tx", Op: "vest_create", A: a, B: b, P: p}
 		},
@@ -401,8 +506,15 @@ func init() {
 		Gen: func(w *e.World, r *e.RNG) e.Step {
 			a := r.Intn(nAcc(w))
 			b := w.AnyAcct(r)
-			s := GenSched(r, w.Now.Unix(), r.Amount(e.BigS("50000000000000000000000")), false)
+			s := GenSched(r, w.Now.Unix(), r.Amount(e.BigS("50000000000000000000000")), r.Chance(0.4))
 			s.Merge = r.Chance(0.6)
+			if va := vestingAccts(w); len(va) > 0 && r.Chance(0.3) {
+				b = va[r.Intn(len(va))]
+				if f := idxOf(w, vestingAcct(w, b).FunderAddress); f >= 0 && f < nAcc(w) {
+					a = f
+				}
+				s.Merge = true
+			}
 			s.Stake = r.Chance(0.2)
 			s.Val = r.Intn(len(w.Vals))
 			p, _ := json.Marshal(s)
@@ -418,7 +530,14 @@ func init() {
 		}})
 	defOp(&OpDef{Name: "vest_clawback",
 		Gen: func(w *e.World, r *e.RNG) e.Step {
-			return e.Step{K: "tx", Op: "vest_clawback", A: r.Intn(nAcc(w)), B: w.AnyAcct(r), N: []int64{int64(w.AnyAcct(r)), int64(r.Intn(2))}}
+			a, b := r.Intn(nAcc(w)), w.AnyAcct(r)
+			if va := vestingAccts(w); len(va) > 0 && r.Chance(0.85) {
+				b = va[r.Intn(len(va))]
+				if f := idxOf(w, vestingAcct(w, b).FunderAddress); f >= 0 && r.Chance(0.85) {
+					a = f
+				}
+			}
+			return e.Step{K: "tx", Op: "vest_clawback", A: a, B: b, N: []int64{int64(w.AnyAcct(r)), int64(r.Intn(2))}}
 		},
 		Msgs: func(w *e.World, st *e.Step) (*e.Account, []sdk.Msg, bool) {
 			a, b := w.Acct(st.A), w.Acct(st.B)
@@ -430,7 +549,14 @@ func init() {
 		}})
 	defOp(&OpDef{Name: "vest_update_funder",
 		Gen: func(w *e.World, r *e.RNG) e.Step {
-			return e.Step{K: "tx", Op: "vest_update_funder", A: r.Intn(nAcc(w)), B: w.AnyAcct(r), N: []int64{int64(r.Intn(nAcc(w)))}}
+			a, b := r.Intn(nAcc(w)), w.AnyAcct(r)
+			if va := vestingAccts(w); len(va) > 0 && r.Chance(0.85) {
+				b = va[r.Intn(len(va))]
+				if f := idxOf(w, vestingAcct(w, b).FunderAddress); f >= 0 && r.Chance(0.85) {
+					a = f
+				}
+			}
+			return e.Step{K: "tx", Op: "vest_update_funder", A: a, B: b, N: []int64{int64(r.Intn(nAcc(w)))}}
 		},
 		Msgs: func(w *e.World, st *e.Step) (*e.Account, []sdk.Msg, bool) {
 			a, b := w.Acct(st.A), w.Acct(st.B)
@@ -438,7 +564,11 @@ func init() {
 		}})
 	defOp(&OpDef{Name: "vest_convert_back",
 		Gen: func(w *e.World, r *e.RNG) e.Step {
-			return e.Step{K: "tx", Op: "vest_convert_back", A: w.AnyAcct(r)}
+			a := w.AnyAcct(r)
+			if va := vestingAccts(w); len(va) > 0 && r.Chance(0.85) {
+				a = va[r.Intn(len(va))]
+			}
+			return e.Step{K: "tx", Op: "vest_convert_back", A: a}
 		},
 		Msgs: func(w *e.World, st *e.Step) (*e.Account, []sdk.Msg, bool) {
 			a := w.Acct(st.A)
@@ -449,7 +579,16 @@ func init() {
 	defOp(&OpDef{Name: "lv_liquidate",
 		Gen: func(w *e.World, r *e.RNG) e.Step {
 			a := w.AnyAcct(r)
-			return e.Step{K: "tx", Op: "lv_liquidate", A: a, B: w.AnyAcct(r), S: []string{r.Amount(w.Balance(w.Acct(a).Acc)).String()}}
+			max := w.Balance(w.Acct(a).Acc)
+			if va := vestingAccts(w); len(va) > 0 && r.Chance(0.9) {
+				a = va[r.Intn(len(va))]
+				max = vestingAcct(w, a).GetLockedUpCoins(w.Now).AmountOf(e.Denom).BigInt()
+			}
+			b := w.AnyAcct(r)
+			if r.Chance(0.4) {
+				b = a
+			}
+			return e.Step{K: "tx", Op: "lv_liquidate", A: a, B: b, S: []string{r.Amount(max).String()}}
 		},
 		Msgs: func(w *e.World, st *e.Step) (*e.Account, []sdk.Msg, bool) {
 			a, b := w.Acct(st.A), w.Acct(st.B)
@@ -459,8 +598,16 @@ func init() {
 		Gen: func(w *e.World, r *e.RNG) e.Step {
 			a := w.AnyAcct(r)
 			d := fmt.Sprintf("aLIQUID%d", r.Intn(4))
-			max := w.App().BankKeeper.GetBalance(w.Ctx(), w.Acct(a).Acc, d).Amount.BigInt()
-			return e.Step{K: "tx", Op: "lv_redeem", A: a, B: w.AnyAcct(r), S: []string{d, r.Amount(max).String()}}
+			if ds := liquidDenoms(w); len(ds) > 0 && r.Chance(0.9) {
+				d = ds[r.Intn(len(ds))]
+				for _, i := range allIdx(w) {
+					if liquidHolding(w, i, d).Sign() > 0 && r.Chance(0.6) {
+						a = i
+						break
+					}
+				}
+			}
+			return e.Step{K: "tx", Op: "lv_redeem", A: a, B: w.AnyAcct(r), S: []string{d, r.Amount(liquidHolding(w, a, d)).String()}}
 		},
 		Msgs: func(w *e.World, st *e.Step) (*e.Account, []sdk.Msg, bool) {
 			a, b := w.Acct(st.A), w.Acct(st.B)
@@ -498,6 +645,15 @@ func init() {
 		Gen: func(w *e.World, r *e.RNG) e.Step {
 			a := w.AnyAcct(r)
 			d := fmt.Sprintf("aLIQUID%d", r.Intn(4))
+			if ds := liquidDenoms(w); len(ds) > 0 && r.Chance(0.9) {
+				d = ds[r.Intn(len(ds))]
+				for _, i := range allIdx(w) {
+					if w.App().BankKeeper.GetBalance(w.Ctx(), w.Acct(i).Acc, d).Amount.IsPositive() && r.Chance(0.7) {
+						a = i
+						break
+					}
+				}
+			}
 			max := w.App().BankKeeper.GetBalance(w.Ctx(), w.Acct(a).Acc, d).Amount.BigInt()
 			return e.Step{K: "tx", Op: "erc20_convert_coin", A: a, B: w.AnyAcct(r), S: []string{d, r.Amount(max).String()}}
 		},
@@ -509,7 +665,17 @@ func init() {
 		Gen: func(w *e.World, r *e.RNG) e.Step {
 			a := w.AnyAcct(r)
 			d := fmt.Sprintf("aLIQUID%d", r.Intn(4))
-			return e.Step{K: "tx", Op: "erc20_convert_erc20", A: a, B: w.AnyAcct(r), S: []string{d, r.Amount(e.BigS("1000000000000000000000")).String()}}
+			max := e.BigS("1000000000000000000000")
+			if ds := liquidDenoms(w); len(ds) > 0 && r.Chance(0.9) {
+				d = ds[r.Intn(len(ds))]
+				for _, i := range allIdx(w) {
+					if h := liquidHolding(w, i, d); h.Sign() > 0 && r.Chance(0.6) {
+						a, max = i, h
+						break
+					}
+				}
+			}
+			return e.Step{K: "tx", Op: "erc20_convert_erc20", A: a, B: w.AnyAcct(r), S: []string{d, r.Amount(max).String()}}
 		},
 		Msgs: func(w *e.World, st *e.Step) (*e.Account, []sdk.Msg, bool) {
 			a, b := w.Acct(st.A), w.Acct(st.B)
@@ -569,7 +735,7 @@ func ExecOp(w *e.World, st *e.Step) (e.TxResult, bool) {
 		if !ok {
 			return e.TxResult{}, false
 		}
-		opts := e.TxOpts{EIP712: st.Net == "eip712"}
+		opts := e.TxOpts{EIP712: st.Net == "eip712", EIP712Direct: st.Net == "eip712d"}
 		if w.Cfg.Flag("byz_basic") == 0 {
 			// honest path: a tx whose messages fail stateless validation never leaves
 			// the client / never passes CheckTx. With the byz_basic flag a byzantine
@@ -588,6 +754,9 @@ func ExecOp(w *e.World, st *e.Step) (e.TxResult, bool) {
 			return e.TxResult{}, false
 		}
 		w.Stats.Op(st.Op, res.Code == 0)
+		if dbg := os.Getenv("HAQQSIM_OPLOG"); dbg != "" && dbg == st.Op {
+			fmt.Fprintf(os.Stderr, "OPLOG %s code=%d %s\n", st.Op, res.Code, trunc(res.Log, 240))
+		}
 		return res, true
 	}
 	a, args, ok := o.Eth(w, st)
